@@ -327,7 +327,7 @@ def verify_unit(unit, scratch, tier='quick', seed=0, repo=None, vacuity=True):
                     info = asm2.linemap.get(sp.get('line_start'))
                     if info and info.get('label') == 'vacuity':
                         refuted.add(info['key'])
-        missing = [k for k in asm2.fns if k not in refuted]
+        missing = [k for k in asm2.fns if k not in refuted and not asm2.fns[k]['fn'].no_twin]
         res.vacuity = dict(functions=len(asm2.fns), refuted=len(refuted), not_refuted=missing)
         if missing and res.status != 'undecided':
             res.status = 'undecided'
